@@ -1,0 +1,166 @@
+//! Verification hooks (cargo feature `verif-hooks`, off by default).
+//!
+//! `VecMap` is an association-list stand-in for `std::collections::HashMap` with the API
+//! subset this workspace uses. Symbolic-execution engines cannot execute hashbrown's
+//! probing/SipHash within reach; finite-map semantics are all the code relies on.
+//! Iteration order of a real `HashMap` is arbitrary: `INSERT_POS`, when set by a harness,
+//! chooses where a fresh key lands so that every iteration order is reachable.
+use std::borrow::Borrow;
+
+/// hook: given the new length, return the slot (< len) the fresh entry is swapped into
+pub static mut INSERT_POS: Option<fn(usize) -> usize> = None;
+
+#[derive(Clone, Debug)]
+pub struct VecMap<K, V> {
+  items: Vec<(K, V)>,
+}
+
+impl<K, V> Default for VecMap<K, V> {
+  fn default() -> Self {
+    Self { items: Vec::new() }
+  }
+}
+
+impl<K: Eq, V> VecMap<K, V> {
+  pub fn new() -> Self {
+    Self { items: Vec::new() }
+  }
+  pub fn len(&self) -> usize {
+    self.items.len()
+  }
+  pub fn is_empty(&self) -> bool {
+    self.items.is_empty()
+  }
+  fn position<Q: ?Sized + Eq>(&self, k: &Q) -> Option<usize>
+  where
+    K: Borrow<Q>,
+  {
+    let mut i = 0;
+    while i < self.items.len() {
+      if self.items[i].0.borrow() == k {
+        return Some(i);
+      }
+      i += 1;
+    }
+    None
+  }
+  pub fn insert(&mut self, k: K, v: V) -> Option<V> {
+    if let Some(i) = self.position(&k) {
+      return Some(std::mem::replace(&mut self.items[i].1, v));
+    }
+    self.items.push((k, v));
+    let len = self.items.len();
+    #[allow(static_mut_refs)]
+    if let Some(f) = unsafe { INSERT_POS } {
+      let j = f(len);
+      if j < len {
+        self.items.swap(j, len - 1);
+      }
+    }
+    None
+  }
+  pub fn get<Q: ?Sized + Eq>(&self, k: &Q) -> Option<&V>
+  where
+    K: Borrow<Q>,
+  {
+    self.position(k).map(|i| &self.items[i].1)
+  }
+  pub fn get_mut<Q: ?Sized + Eq>(&mut self, k: &Q) -> Option<&mut V>
+  where
+    K: Borrow<Q>,
+  {
+    match self.position(k) {
+      Some(i) => Some(&mut self.items[i].1),
+      None => None,
+    }
+  }
+  pub fn contains_key<Q: ?Sized + Eq>(&self, k: &Q) -> bool
+  where
+    K: Borrow<Q>,
+  {
+    self.position(k).is_some()
+  }
+  pub fn remove<Q: ?Sized + Eq>(&mut self, k: &Q) -> Option<V>
+  where
+    K: Borrow<Q>,
+  {
+    let i = self.position(k)?;
+    Some(self.items.remove(i).1)
+  }
+  pub fn entry(&mut self, k: K) -> Entry<'_, K, V> {
+    Entry { map: self, key: k }
+  }
+  pub fn keys(&self) -> impl Iterator<Item = &K> + '_ {
+    self.items.iter().map(|(k, _)| k)
+  }
+  pub fn values(&self) -> impl Iterator<Item = &V> + '_ {
+    self.items.iter().map(|(_, v)| v)
+  }
+  pub fn values_mut(&mut self) -> impl Iterator<Item = &mut V> + '_ {
+    self.items.iter_mut().map(|(_, v)| v)
+  }
+  pub fn iter(&self) -> Iter<'_, K, V> {
+    Iter {
+      inner: self.items.iter(),
+    }
+  }
+}
+
+pub struct Entry<'a, K, V> {
+  map: &'a mut VecMap<K, V>,
+  key: K,
+}
+impl<'a, K: Eq, V> Entry<'a, K, V> {
+  pub fn or_default(self) -> &'a mut V
+  where
+    V: Default,
+  {
+    self.or_insert_with(V::default)
+  }
+  pub fn or_insert_with<F: FnOnce() -> V>(self, f: F) -> &'a mut V {
+    let i = match self.map.position(&self.key) {
+      Some(i) => i,
+      None => {
+        self.map.items.push((self.key, f()));
+        self.map.items.len() - 1
+      }
+    };
+    &mut self.map.items[i].1
+  }
+  pub fn or_insert(self, v: V) -> &'a mut V {
+    self.or_insert_with(|| v)
+  }
+}
+
+pub struct Iter<'a, K, V> {
+  inner: std::slice::Iter<'a, (K, V)>,
+}
+impl<'a, K, V> Iterator for Iter<'a, K, V> {
+  type Item = (&'a K, &'a V);
+  fn next(&mut self) -> Option<Self::Item> {
+    self.inner.next().map(|(k, v)| (k, v))
+  }
+}
+impl<'a, K: Eq, V> IntoIterator for &'a VecMap<K, V> {
+  type Item = (&'a K, &'a V);
+  type IntoIter = Iter<'a, K, V>;
+  fn into_iter(self) -> Self::IntoIter {
+    self.iter()
+  }
+}
+impl<K, V> IntoIterator for VecMap<K, V> {
+  type Item = (K, V);
+  type IntoIter = std::vec::IntoIter<(K, V)>;
+  fn into_iter(self) -> Self::IntoIter {
+    self.items.into_iter()
+  }
+}
+impl<K: Eq, V> FromIterator<(K, V)> for VecMap<K, V> {
+  fn from_iter<I: IntoIterator<Item = (K, V)>>(iter: I) -> Self {
+    let mut m = VecMap::new();
+    for (k, v) in iter {
+      m.insert(k, v);
+    }
+    m
+  }
+}
